@@ -607,6 +607,9 @@ def np_sum(I, a, **kw):
     """sum of a BOOLEAN array = number of true entries: c in [0, n], c == 0 iff none is true
     (partial contract: the exact count is not stated)"""
     a = as_arr(I, a)
+    if a.kind != "bool" and getattr(a, "_sum_term", None) is not None:
+        # the contract names the sum of this array (a definitional ghost term, e.g. csum(j) for chunk j)
+        return a._sum_term
     if a.kind != "bool":
         raise Unsupported("np.sum of a non-boolean array needs a contract-level abstraction")
     _use("sum(bool array) = count")
